@@ -134,7 +134,7 @@ func NewEngine(
 		panic(err)
 	}
 
-	processor, eventsCh := NewProcessor(localPeerID, config)
+	processor, eventsCh := NewProcessor(localPeerID, config, logger)
 
 	cmdCh := make(chan engineCommand)
 
